@@ -33,7 +33,7 @@ const (
 	c18ModelIdx = 5 // transcription's prediction under D_SwapDelete (0 = same as expected)
 )
 
-var c18KeyNames = map[int]string{1: "a", 2: "b", 3: "a.b", 4: "a.b.a"}
+var c18KeyNames = map[int]string{1: "a", 2: "b", 3: "a.b", 4: "a.b.a", 5: "b.a"}
 var c18LeafText = map[int]string{1: `1`, 2: `"s"`, 3: `null`}
 
 type c18Case struct {
